@@ -1177,8 +1177,12 @@ def semantic_program(draw, profile: str = "modelled", disabled=(), focus: Option
         ast["intcblock"] = 4
     elif cfg.profile == "modelled" and cfg.on("intcblock_not_in_entry_block") and cfg.on("second_intcblock") and version >= 2 and draw(st.sampled_from(range(10))) == 9:
         # (programs whose reference is R-AVM only: the generator's annotations no longer describe the conditions)
-        ast["intcblock"] = 5
-        ast["intc_pos"] = draw(st.integers(0, 30))
+        # not together with recursion: with the constants replaced between two activations of one subroutine an
+        # execution can need the second activation to be accepted, and recursive activations are outside the
+        # fragment the properties quantify over (shared and nested subroutines)
+        if not any(x[0] == "call" and x[1] == nm_ for nm_, b_ in subs.items() for x in _flat(b_)):
+            ast["intcblock"] = 5
+            ast["intc_pos"] = draw(st.integers(0, 30))
     prog = lower_program(ast, cfg)
     if chain:
         prog["features"] = sorted(set(prog["features"]) | {"deep_call_chain"})
